@@ -102,6 +102,13 @@ CLAIMED = {
             'Which corruptions CHANGE a CRC-16/LRC is a property of the specified checksum (not proved). RTU size oracle abstracted to any value >= 4. '
             'The stub decoder stands for both decoders (returns a message, None or raises). A1-A10; z3/cvc5.',
             'contract-based deductive verification (pyvc VC generation from /repo AST + z3/cvc5)', 'DESIGN.md section 4 C07'),
+    'C03': ('proof', 'Build side, for an arbitrary message (any unit id, transaction id, protocol id, function code, payload bytes): buildPacket of the TCP, TLS, RTU and '
+            'ASCII framers is byte for byte the S-ADU (MBAP with length = |PDU|+1; unit+PDU+CRC low byte first; colon + upper-case hex of unit, PDU, LRC + CR LF; bare PDU); '
+            'computeCRC and computeLRC are proved equal to the bit-level CRC-16/MODBUS and LRC specifications (loop invariant over an uninterpreted fold, CRC table by '
+            '256-way split). Receive side: whole-frame round trip through a fresh receiver proved for TCP, TLS and RTU; RTU length oracle proved per class (68 classes).',
+            'ASCII and binary round trips are a BOUNDED stand-in (executable twin, seeded inputs) - the delimiter search over hex text / escaped payload is not '
+            'discharged within budget. Binary buildPacket is covered by its length contract only. An arbitrary message is abstracted by "encode() returns some bytes". '
+            'Two known findings (binary delimiter bytes; diagnostic RTU frame size constant).', 'contract-based deductive verification (pyvc) + bounded twin for two framers', 'DESIGN.md section 4 C03'),
 }
 NOT_YET = 'check not built yet at this commit (planned: contract-based, see DESIGN.md section 4)'
 ALL = ['C%02d' % i for i in range(1, 21)]
